@@ -82,7 +82,7 @@ def ref_problems(lib, refs):
                         rep = (k, outcome)
                         break
                     prev_ok = st if outcome == "ok" else None
-                elif st["s"] not in ("touch", "write"):
+                elif st["s"] not in ("touch", "write", "enzo_patch"):
                     prev_ok = None
             first_bad = next(i for i, s_ in enumerate(a["steps"]) if s_.startswith("exc:"))
             if rep is not None and d["steps"][first_bad]["s"] in ("render", "cli_render", "to_code", "export") and \
@@ -117,7 +117,7 @@ def ref_problems(lib, refs):
                                     "files": diff_files(a["renders"][k], a["renders"][prev[1]])})
                     break
                 prev = (st, k)
-            elif st["s"] not in ("touch", "write"):
+            elif st["s"] not in ("touch", "write", "enzo_patch"):
                 prev = None
     # prior renderings (and to_code / export calls) must not influence a later rendering
     byid = {d["id"]: d for d in lib}
